@@ -716,7 +716,7 @@ var modules = map[string]*moduleSpec{
 			"ProcessAcceptedPurchaseOrders", "TallyPurchaseOrderDecisions",
 			"RaiseNewPurchaseOrder", "IsAuthorisedToDecide", "ProcessPurchaseOrderDecision", "ProcessWhitelistAction",
 			"UndPurchaseOrder", "ProcessUndPurchaseOrder", "WhitelistAddress", "UpdateParams", "InitGenesis", "ExportGenesis"},
-		typeFuncs: [][2]string{{"purchase_order_status.go", "ValidPurchaseOrderAcceptRejectStatus"}, {"whitelist_action.go", "ValidWhitelistAction"},
+		typeFuncs: [][2]string{{"purchase_order_status.go", "ValidPurchaseOrderStatus"}, {"purchase_order_status.go", "ValidPurchaseOrderAcceptRejectStatus"}, {"whitelist_action.go", "ValidWhitelistAction"},
 			{"params.go", "validateDenom"}, {"params.go", "validateMinAccepts"}, {"params.go", "validateDecisionLimit"}, {"params.go", "validateEntSigners"}, {"params.go", "Params.Validate"}},
 		msgTypes: []string{"MsgUndPurchaseOrder", "MsgProcessUndPurchaseOrder", "MsgWhitelistAddress"}, callbacks: []string{"EnterpriseUndPurchaseOrders"},
 		prims: enterprisePrims, consts: map[string]constDef{"types.ModuleName": {"MOD_enterprise", tModName}, "k.authority": {"KEEPER_authority", tAddrStr}}, world: "eworld",
